@@ -467,3 +467,18 @@ def map_line(meta_list, gen_line, gen_text, repo=REPO):
                     best, best_i = r, i
             return m['id'], m['file'], m['line'] + best_i
     return None, None, None
+
+
+def unit_shapes(log):
+    """the *shape* of each extracted unit: how many times each class of rewrite (R1 .. R11, the desugarings) applied to it.
+    An in-place edit (another constant, comparison, std call of the same class) keeps it; a restructured body changes it."""
+    shapes = {}
+    for e in log:
+        u = e.get('unit')
+        if not u:
+            continue
+        n = len(e.get('matches') or [1])
+        d = shapes.setdefault(u, {})
+        d[e.get('rule', '?')] = d.get(e.get('rule', '?'), 0) + n
+    return shapes
+
